@@ -118,7 +118,7 @@ TSwap == /\ IsOp("swap")
                /\ Immutable(cl, cl', {})
 
 \* reward collection, incentive creation and time do not touch the core bookkeeping
-TOther == /\ l < NLines /\ Ev.e = "op" /\ Ev.op \in {"collectFee", "collectInc", "incentive", "time"}
+TOther == /\ l < NLines /\ Ev.e = "op" /\ Ev.op \in {"collectFee", "collectInc", "incentive", "time", "unlockLock"}
           /\ Rebase
           /\ Same(cl, cl')
           /\ Immutable(cl, cl', {})
